@@ -1,4 +1,4 @@
-import OvniModel.Lemmas.FsSpec
+import OvniModel.Lemmas.FsSched
 import OvniModel.Lemmas.FsBuffer
 
 /-!
@@ -18,6 +18,8 @@ has the header, tiles into events and leaves the thread dead.
   exactly the bytes its thread has flushed.
 * `finished_after_data_partial` — same hypotheses: finished = 1 visible in the
   final tree ⇒ the final stream.obs is complete.
+* `…_any_schedule_partial` — both for every interleaving of the calls of several
+  threads (the plain versions run the threads one after the other).
 * `crash_consistent_fails`, `finished_after_data_fails` — for the code as it
   stands the full statements (every readdir order) are FALSE: witness with
   stream.json relocated first (key `tmpdir-json-before-obs`).
@@ -29,63 +31,40 @@ open Ovni.Rt Ovni.Rt.Fs
 
 theorem crash_consistent_partial (E : EmuCfg) (C : Codec) (p : Prog) (hwf : WellFormed p)
     (hm : p.tmpMode = false ∨ ObsFirst p) : CrashConsistent E C p := by
-  intro k cut r hacc tid hvis
-  have hj := isSome_of_visibleStream _ r tid hvis
-  have hsa : streamAccepted E C (crashState C p k) cut r tid = true := by
-    simp only [accepts, List.all_eq_true] at hacc
-    exact hacc tid hvis
-  by_cases hex : ∃ t ∈ p.threads, t.tid = tid
-  · obtain ⟨t, ht, rfl⟩ := hex
-    have inv := tinv_at_crash C p hwf hm t ht k
-    have hs : Safe (viewOf (crashState C p k) t.tid) r := by cases r; exact inv.safeT; exact inv.safeF
-    rw [visible_of_view]
-    rcases hs with h | ⟨d, h1, h2⟩ | h
-    · -- no stream.obs: not accepted
-      exfalso
-      simp only [streamAccepted, Bool.and_eq_true] at hsa
-      have := hsa.2
-      rw [visible_of_view, h] at this
-      simp at this
-    · rw [h1, Fs.flushed_eq]
-      simp only [List.take_nil, List.append_nil]
-      congr 1
-      exact h2.symm
-    · exfalso
-      have : (viewOf (crashState C p k) t.tid).j r = (crashState C p k).get (.file r t.tid .json) := by
-        cases r <;> rfl
-      rw [this] at h
-      rw [h] at hj
-      cases hj
-  · exfalso
-    have hv := view_of_stranger C.ser p tid (fun t ht e => hex ⟨t, ht, e.symm⟩) k
-    have : (crashState C p k).get (.file r tid .json) = none := by
-      have h2 : (viewOf (crashState C p k) tid).j r = none := by
-        unfold crashState; rw [hv]; cases r <;> rfl
-      cases r <;> exact h2
-    rw [this] at hj
-    cases hj
+  intro k cut r hacc
+  refine crash_consistent_of_inv E C p _ (fun t ht r => ?_) (fun τ h => view_of_stranger C.ser p τ h k) cut r hacc
+  have inv := tinv_at_crash C p hwf hm t ht k
+  cases r
+  · exact inv.safeT
+  · exact inv.safeF
 
 theorem finished_after_data_partial (C : Codec) (p : Prog) (hwf : WellFormed p)
     (hm : p.tmpMode = false ∨ ObsFirst p) : FinishedAfterData C p := by
   intro k cut t ht j hj hfin
-  have inv := (tinv_at_crash C p hwf hm t ht k).fad
-  have hvj : (crashState C p k).get (.file .fin t.tid .json) = (viewOf (crashState C p k) t.tid).jf := rfl
-  rcases inv with h | ⟨d, pn, m, h1, h2, h3⟩ | h
-  · exfalso
-    simp only [Fs.visible, hvj, h] at hj
-    cases hj
-  · exfalso
-    simp only [Fs.visible, hvj, h1, Option.some.injEq] at hj
-    subst hj
-    have hpre : (d ++ pn.take (cut (.file .fin t.tid .json))) <+: C.ser m :=
-      List.IsPrefix.trans ((List.prefix_append_right_inj d).mpr (List.take_prefix _ pn)) h3
-    by_cases he : d ++ pn.take (cut (.file .fin t.tid .json)) = C.ser m
-    · simp only [jsonFinished, he, C.parse_ser, h2] at hfin
-      cases hfin
-    · simp only [jsonFinished, C.parse_prefix m _ hpre he] at hfin
-      cases hfin
-  · rw [visible_of_view]
-    simp only [View.o, h, List.take_nil, List.append_nil]
+  exact finished_after_data_of_inv C t _ (tinv_at_crash C p hwf hm t ht k).fad cut j hj hfin
+
+/-- The same for every interleaving of the threads' calls (`Schedule`): the
+    calls of different threads touch disjoint files, so a thread's stream only
+    depends on how far that thread got. -/
+theorem crash_consistent_any_schedule_partial (E : EmuCfg) (C : Codec) (p : Prog) (L : List FOp)
+    (hL : Schedule C.ser p L) (hwf : WellFormed p) (hm : p.tmpMode = false ∨ ObsFirst p) :
+    CrashConsistentS E C p L := by
+  intro k cut r hacc
+  refine crash_consistent_of_inv E C p _ (fun t ht r => ?_) (fun τ h => view_of_stranger_sched C.ser p L hL τ h k)
+    cut r hacc
+  have inv := tinv_at_crash_sched C p L hL hwf hm t ht k
+  cases r
+  · exact inv.safeT
+  · exact inv.safeF
+
+theorem finished_after_data_any_schedule_partial (C : Codec) (p : Prog) (L : List FOp)
+    (hL : Schedule C.ser p L) (hwf : WellFormed p) (hm : p.tmpMode = false ∨ ObsFirst p) :
+    FinishedAfterDataS C p L := by
+  intro k cut t ht j hj hfin
+  exact finished_after_data_of_inv C t _ (tinv_at_crash_sched C p L hL hwf hm t ht k).fad cut j hj hfin
+
+/-- The sequential run of the other theorems is one of the schedules. -/
+example (C : Codec) (p : Prog) : Schedule C.ser p (ops (calls C.ser p)) := schedule_sequential C.ser p
 
 /-! ### what "complete" means in terms of the buffer model
 
@@ -150,6 +129,10 @@ example : WellFormed wObsFirst ∧ ReaddirOrder wObsFirst ∧ ObsFirst wObsFirst
   refine ⟨by unfold WellFormed; decide, by unfold ReaddirOrder; decide, by unfold ObsFirst; decide, rfl⟩
 
 example : WellFormed wDirect ∧ wDirect.tmpMode = false := ⟨by unfold WellFormed; decide, rfl⟩
+
+/-- Several threads. -/
+example : WellFormed { wObsFirst with threads := [wT, { wT with tid := 8 }, { wT with tid := 9, free := false }] } := by
+  unfold WellFormed; decide
 
 /-- … and the premise of `CrashConsistent` is reachable: the completed
     relocation (and a crash in the middle of the json copy, with the whole
